@@ -1881,6 +1881,41 @@ def sec_engine(ctx, rng, case):
     ctx.distinct(("validating", tuple(cids), tuple(reps_list), tuple(sw[2] for sw in sweeps)), nontrivial=True)
 
 
+def sec_large(ctx, rng, case):
+    """results with more repetitions than any internal batch: histograms still count every repetition"""
+    import cirq
+
+    reps = int([50001, 65537, 100003, 150000, 49999, 50000][case % 6])
+    nd = int(rng.integers(1, 4))
+    base = int(rng.choice([2, 2, 3]))
+    # a skewed distribution, so that every outcome shows up in every batch with a different count
+    probs = rng.dirichlet(np.ones(base ** nd) * 0.7)
+    vals = rng.choice(base ** nd, size=reps, p=probs)
+    digits = np.zeros((reps, 1, nd), dtype=np.uint8)
+    v = vals.copy()
+    for i in range(nd - 1, -1, -1):
+        digits[:, 0, i] = v % base
+        v //= base
+    r = cirq.ResultDict(params=cirq.ParamResolver({}), records={"k": digits})
+    want = collections.Counter(int(x) for x in vals)
+    kw = {"fold_base": base} if base != 2 else {}
+    got = r.histogram(key="k", **kw)
+    w = dict(reps=reps, digits=nd, base=base)
+    ctx.check(sum(got.values()) == reps, "histogram==model", "C18:histogram-loses-repetitions", "counts sum to %d of %d repetitions" % (sum(got.values()), reps), **w)
+    ctx.check(dict(got) == dict(want), "histogram==model", "C18:histogram-large", "histogram of %d repetitions differs from the count of the records" % reps,
+              got=dict(list(got.items())[:6]), want=dict(list(want.items())[:6]), **w)
+    got2 = r.histogram(key="k", fold_func=lambda row: int("".join(str(int(b)) for b in row), base))
+    ctx.check(dict(got2) == dict(want), "histogram==model", "C18:histogram-large-fold_func", "", **w)
+    if base == 2:  # (multi_measurement_histogram folds bits only)
+        mm = r.multi_measurement_histogram(keys=["k"])
+        ctx.check({k_[0]: c for k_, c in mm.items()} == dict(want), "multi_histogram==model", "C18:multi-histogram-large", "", **w)
+    half = reps // 2
+    a = cirq.ResultDict(params=cirq.ParamResolver({}), records={"k": digits[:half]})
+    b = cirq.ResultDict(params=cirq.ParamResolver({}), records={"k": digits[half:]})
+    ctx.check(dict((a + b).histogram(key="k", **kw)) == dict(want), "add==model-concat", "C18:histogram-of-sum-large", "", **w)
+    ctx.distinct(("large", reps, nd, base), nontrivial=True)
+
+
 # (name, function, quick cases, thorough cases, time weight).  One of 14 quick shards needs ~10 s of workload on
 # an idle machine (measured 18 s for twice these counts), which leaves room for a machine loaded 4x.
 SECTIONS = [
@@ -1893,4 +1928,5 @@ SECTIONS = [
     ("zeros_rejections", sec_zeros_rejections, 28, 64, 0.1),
     ("extras", sec_extras, 2000, 40000, 0.5),
     ("engine", sec_engine, 1500, 40000, 1.5),
+    ("large", sec_large, 28, 280, 1.0),
 ]
